@@ -113,12 +113,18 @@ func NewEngine(cfg Config, r *lib.RNG, driverPath, scratch string, res *lib.Resu
 		if err := e.sendUniverse(); err != nil {
 			return nil, err
 		}
-		flag := "0"
-		if leafFixPresent() {
-			flag = "1"
-		}
-		if ans, err := drv.Ask("cfg leaffix " + flag); err != nil || ans != "ok" {
-			return nil, fmt.Errorf("driver cfg: %q %v", ans, err)
+		lf, sp := probeVariant()
+		for _, c := range []struct {
+			name string
+			on   bool
+		}{{"leaffix", lf}, {"sysprobefix", sp}} {
+			flag := "0"
+			if c.on {
+				flag = "1"
+			}
+			if ans, err := drv.Ask("cfg " + c.name + " " + flag); err != nil || ans != "ok" {
+				return nil, fmt.Errorf("driver cfg: %q %v", ans, err)
+			}
 		}
 	}
 	return e, nil
@@ -361,31 +367,42 @@ func (e *Engine) reopen() {
 }
 
 var (
-	leafFixOnce sync.Once
+	probeOnce   sync.Once
 	leafFixVal  bool
+	sysProbeVal bool
 )
 
-// leafFixPresent probes the real code once: which variant of the new backend is in the tree (the
-// Lean model has both, see Cfg.leafFix). Witness: delete a slot whose sibling slot (k xor 1) is set
-// and read it at the head.
-func leafFixPresent() bool {
-	leafFixOnce.Do(func() {
-		g := lib.NewChainGen(lib.NewRNG(1), true, lib.DefaultGenOptions())
-		for _, line := range []string{"sa 104 sk 2 1 d 104 c000", "sa 104 sk 3 4", "sa 104 sk 3 0"} {
-			d, err := decodeDiff("0.13.2", line)
-			if err != nil {
-				return
+// probeVariant probes the real code once: which variant of the new backend is in the tree (the Lean
+// model has both, see Cfg in Model.lean). Witnesses: (leafFix) delete a slot whose sibling slot
+// (k xor 1) is set and read it at the head; (sysProbeFix) empty the storage of a system contract
+// and read the earlier block.
+func probeVariant() (leafFix, sysProbeFix bool) {
+	probeOnce.Do(func() {
+		run := func(lines []string) *lib.ChainGen {
+			g := lib.NewChainGen(lib.NewRNG(1), true, lib.DefaultGenOptions())
+			for _, line := range lines {
+				d, err := decodeDiff("0.13.2", line)
+				if err != nil {
+					return nil
+				}
+				if _, err := g.Next(&lib.BlockSpec{Version: d.Version, Diff: d.Diff, Classes: d.Classes, NoTxs: true}); err != nil {
+					return nil
+				}
 			}
-			if _, err := g.Next(&lib.BlockSpec{Version: d.Version, Diff: d.Diff, Classes: d.Classes, NoTxs: true}); err != nil {
-				return
+			return g
+		}
+		if g := run([]string{"sa 104 sk 2 1 d 104 c000", "sa 104 sk 3 4", "sa 104 sk 3 0"}); g != nil {
+			if r, _, err := g.Src.HeadState(); err == nil {
+				v, err := r.ContractStorage(lib.F(0x104), lib.F(3))
+				leafFixVal = err == nil && v.IsZero()
 			}
 		}
-		r, _, err := g.Src.HeadState()
-		if err != nil {
-			return
+		if g := run([]string{"sa 1 sk 2 5", "sa 1 sk 2 0"}); g != nil {
+			if r, _, err := g.Src.StateAtBlockNumber(0); err == nil {
+				v, err := r.ContractStorage(lib.F(1), lib.F(2))
+				sysProbeVal = err == nil && v.Equal(lib.F(5))
+			}
 		}
-		v, err := r.ContractStorage(lib.F(0x104), lib.F(3))
-		leafFixVal = err == nil && v.IsZero()
 	})
-	return leafFixVal
+	return leafFixVal, sysProbeVal
 }
